@@ -20,7 +20,7 @@ RULE = ('bra/ket pairs with independent bond profiles and every sector-consisten
         'for the local problems every site position x {one-site, two-site, zero-site} x Hermitian / non-Hermitian operator; '
         'non-trivial = all operands non-zero with a bond of dimension >= 2')
 BUDGET = {'quick': 400, 'thorough': 3600}
-SITE_DT = ['mwm', 'fvc', 'wmw', 'mmr', 'rwm', 'vfv']
+SITE_DT = ['mwm', 'fvc', 'UUc', 'uuc', 'wmw', 'mmr', 'rwm', 'vfv', 'uUu']
 
 
 def _scalar_cases(Ls, qds, Ds, dts):
@@ -235,6 +235,30 @@ def run_case(case, ctx):
             ctx.close(Heff, projected(P, H), f'zero_site_effective_hamiltonian_is_projection[bond {i+1}]')
             if herm:
                 ctx.close(Heff, Heff.conj().T, f'zero_site_effective_hamiltonian_hermitian[bond {i+1}]')
+        # the same array objects with contents changed in place between two calls (nothing may be remembered across calls)
+        for i in range(L):
+            x0 = palette.generic(ctx.rng(50 + i), A[i].shape, 'complex')
+            Lb, Rb, W = BL[i], BR[i], op.A[i]
+            y0 = apply_local_hamiltonian(Lb, Rb, W, x0)
+            W *= 3.0
+            y1 = apply_local_hamiltonian(Lb, Rb, W, x0)
+            Lb *= 2.0
+            y2 = apply_local_hamiltonian(Lb, Rb, W, x0)
+            Rb *= -1.0
+            y3 = apply_local_hamiltonian(Lb, Rb, W, x0)
+            ctx.calls += 4
+            ctx.close(y1, 3 * y0, f'local_hamiltonian_uses_current_contents_of_W[site {i}]')
+            ctx.close(y2, 6 * y0, f'local_hamiltonian_uses_current_contents_of_left_block[site {i}]')
+            ctx.close(y3, -6 * y0, f'local_hamiltonian_uses_current_contents_of_right_block[site {i}]')
+            if i < L - 1:
+                D = A[i].shape[2]
+                c0 = palette.generic(ctx.rng(70 + i), (D, D), 'complex')
+                Lc, Rc = BL[i + 1], BR[i]
+                z0 = apply_local_bond_contraction(Lc, Rc, c0)
+                Lc *= 0.5
+                z1 = apply_local_bond_contraction(Lc, Rc, c0)
+                ctx.calls += 2
+                ctx.close(z1, 0.5 * z0, f'bond_contraction_uses_current_contents_of_blocks[bond {i+1}]')
     else:
         raise ValueError(kind)
 
@@ -249,8 +273,8 @@ def spaces(tier, seed):
         return [
             Space('scalars', core.chunked(_scalar_cases([1, 2, 3], qds, [1, 2], ['cc', 'rc', 'cr']), 200), run_case=run_case, sig=sig,
                   bounds={'L': [1, 2, 3], 'qd': qds, 'D': [1, 2], 'dtypes': ['cc', 'rc', 'cr'], 'operators_per_pair': 5}),
-            Space('scalars_site_dtypes', core.chunked(_scalar_cases([3], qds[:2], [1, 2], SITE_DT[:2]), 200), run_case=run_case, sig=sig,
-                  bounds={'L': [3], 'qd': qds[:2], 'D': [1, 2], 'dtypes (bra, ket, operator; m/w vary from site to site, f/v column-major / strided views)': SITE_DT[:2]}),
+            Space('scalars_site_dtypes', core.chunked(_scalar_cases([3], qds[:2], [1, 2], SITE_DT[:4]), 200), run_case=run_case, sig=sig,
+                  bounds={'L': [3], 'qd': qds[:2], 'D': [1, 2], 'dtypes (bra, ket, operator; m/w vary from site to site, f/v column-major / strided views, u/U unbalanced units)': SITE_DT[:4]}),
             Space('density', core.chunked(_density_cases([1, 2], [[0, 1], [0, 0]]), 200), run_case=run_case, sig=sig,
                   bounds={'L': [1, 2], 'D': [1, 2]}),
             Space('local_problems', core.chunked(_local_cases([1, 2, 3], [[0, 1], [0, 0]], [1, 2]), 20), run_case=run_case, sig=sig,
